@@ -398,12 +398,24 @@ def c06():
     rng = rng_for("C06", 0)
     reqs = gen.format_requests(rng, quick=(core.tier() == "quick"))
     res = [("formats", core.campaign("formats", reqs, wd, spec="TraceFormat", mode="formats", n_shards=14, jvms=8))]
+    # every sector count for default options through the boot-sector hook: quick 0..4M (covers the FAT12/16/32 switch points),
+    # thorough the whole 32-bit range
+    top = (1 << 22) if core.tier() == "quick" else (1 << 32) - 1
+    nchunk = 8 if core.tier() == "quick" else 112
+    step = (top + nchunk) // nchunk
+    ranges = [(i * step, min(top, (i + 1) * step - 1)) for i in range(nchunk) if i * step <= top]
+    sw = core.sweep_campaign("sweep", ranges, wd)
+    res.append(("sweep", sw))
+    exhaustive = core.tier() == "thorough"
     core.finish("C06", LEVEL, res, None, t0,
                 "format requests: default options at every sector count 0..129 and at every threshold of the sizing heuristics and FAT-type limits "
                 "(+-0,1,2 sectors, +- one cluster), an option grid (sector 512..32768, cluster none/512..1M, 1-2 FATs, root entries, forced widths), exact "
                 "cluster-count limits, labels/ids/media, and a random grid; each formatted image is decoded independently and mounted, TLC evaluates "
                 "Format!ValidFormatted in exact (limb) arithmetic; distinct = (outcome, error kind) shapes",
-                ["the independent decoder and BPB parse", "huge formats (> 64 GiB) are sampled, not exhaustive, in the quick tier"])
+                ["the independent decoder and BPB parse", "huge formats (> 64 GiB) are sampled, not exhaustive, in the quick tier",
+                 "sweep: each clause is monotone in the sector count for a fixed layout, so both ends of a run of equal layout decide the run"],
+                extra_cov={"sweep_sector_counts": sw.programs, "sweep_runs": sw.events, "exhaustive": exhaustive,
+                           "exhaustive_note": "default options: every sector count in 0..%d formatted through the boot-sector hook" % top})
 
 
 def c07():
